@@ -73,6 +73,8 @@ def _observe_in_child(modname, case):
 
 
 def main() -> int:
+    import faulthandler, signal
+    faulthandler.register(signal.SIGUSR1, all_threads=True)   # kill -USR1 <pid>: where is a worker right now
     ap = argparse.ArgumentParser()
     ap.add_argument('prop')
     ap.add_argument('--tier', default=os.environ.get('VERIF_TIER', 'quick'), choices=['quick', 'thorough'])
